@@ -20,6 +20,7 @@ package routetable_test
 import (
 	"fmt"
 	"net"
+	"runtime/debug"
 	"sort"
 	"strings"
 	"sync"
@@ -45,6 +46,13 @@ import (
 // resyncIndividualInterfaces dropped the interface from the rescan set and Apply reported success
 // without having looked at the interface.  TestVerifC17RegressionRescanDropped pins the scenario.
 const c17KnownRescanDropped = "c17-iface-rescan-dropped-after-route-list-failure"
+
+// c17KnownStaleTracker is the signature of a finding on the current tree (see final report):
+// RouteTable.resyncIface only re-validates the tracker entries of routes that are desired on the
+// rescanned interface; a tracked route that is owned but not (yet) desired and that the kernel
+// dropped when the link bounced stays in the tracker, so when it becomes desired later Felix
+// believes it is already programmed.
+const c17KnownStaleTracker = "c17-iface-rescan-keeps-vanished-undesired-route-in-tracker"
 
 type c17NoopRecorder struct{}
 
@@ -154,6 +162,8 @@ type c17H struct {
 	resyncRequested    bool     // QueueResync (or a new RouteTable) since the last such edit
 	faultsSinceGood    int
 	sawConflict        bool
+	suspectStaleTracker bool
+	rec                 *ev.Recorder
 
 	ops        []string
 	classes    map[string]bool
@@ -233,6 +243,9 @@ func (h *c17H) desiredDump() string {
 }
 
 func (h *c17H) fail(format string, a ...any) {
+	if h.suspectStaleTracker {
+		format = "[possibly " + c17KnownStaleTracker + ": an owned but unwanted route vanished with its interface earlier in this history] " + format
+	}
 	h.t.Fatalf("%s\nconfig: %+v\nops=%v\ndesired:%s\nkernel routes:%s", fmt.Sprintf(format, a...), h.cfg, h.ops, h.desiredDump(), h.kernelDump())
 }
 
@@ -438,8 +451,13 @@ func (h *c17H) apply() error {
 	armed := h.dp.FailuresToSimulate&mocknetlink.FailNextLinkByNameNotFound != 0
 	var err error
 	var pv any
+	var stack []byte
 	func() {
-		defer func() { pv = recover() }()
+		defer func() {
+			if pv = recover(); pv != nil {
+				stack = debug.Stack()
+			}
+		}()
 		err = h.rt.Apply()
 	}()
 	if pv != nil {
@@ -451,8 +469,15 @@ func (h *c17H) apply() error {
 		}
 		// Documented give-up: three connection attempts in a row failed (only injected faults
 		// can cause that here); Felix restarts.
+		if mf := c17TakeMockFailures(); len(mf) > 0 {
+			// The mock answered a call on a closed handle with (nil, nil) after swallowing its own
+			// assertion (a real closed socket returns an error); what follows is an artefact of the
+			// mock, not behaviour of the code under test.  Discard the case.
+			h.rec.Class("discarded-mock-contract-violation", 1)
+			h.t.Skipf("mock netlink contract violated (%v); case discarded", mf)
+		}
 		if !strings.Contains(msg, "Repeatedly failed to connect to netlink") {
-			panic(pv)
+			h.t.Fatalf("Apply panicked: %s\nmock assertion failures: %v\nops=%v\n%s", msg, c17TakeMockFailures(), h.ops, stack)
 		}
 		h.checkMock()
 		h.checkForeign("after Apply gave up connecting")
@@ -463,6 +488,7 @@ func (h *c17H) apply() error {
 		return fmt.Errorf("felix gave up: %s", msg)
 	}
 	h.checkMock()
+	h.purgeImpossibleRoutes()
 	if armed && h.dp.FailuresToSimulate&mocknetlink.FailNextLinkByNameNotFound == 0 {
 		// "Link not found" is not a failure but false information (the interface is reported
 		// gone); Felix rightly believes it until a later full resync re-lists the links.
@@ -495,8 +521,43 @@ func (h *c17H) apply() error {
 	return nil
 }
 
+// purgeImpossibleRoutes drops routes the mock accepted although their interface is gone or
+// down (a kernel refuses those with ENODEV/ENETDOWN; it happens when an interface event has not
+// reached Felix yet).
+func (h *c17H) purgeImpossibleRoutes() {
+	for k, r := range h.dp.RouteKeyToRoute {
+		if r.LinkIndex <= 1 {
+			continue
+		}
+		name := h.ifaceNameOfIndex(r.LinkIndex)
+		if name == "" || h.dp.NameToLink[name].LinkAttrs.RawFlags&unix.IFF_RUNNING == 0 {
+			delete(h.dp.RouteKeyToRoute, k)
+			delete(h.foreign, k)
+			h.classes["mock-accepted-route-on-missing-iface-purged"] = true
+		}
+	}
+}
+
 // removeRoutesVia mimics the kernel dropping routes when their interface goes away / down.
+// (Called while the interface is still up in the mock.)
 func (h *c17H) removeRoutesVia(idx int) {
+	wanted := map[string]bool{}
+	for k := range h.winners() {
+		wanted[c17MockKey(k)] = true
+	}
+	for k, r := range h.dp.RouteKeyToRoute {
+		if r.LinkIndex == idx && h.routeOwned(&r) && !wanted[k] {
+			// An owned route Felix does not want (kept only by the grace period, or whose
+			// deletion failed) vanishes with its interface: finding c17KnownStaleTracker.
+			if ev.Known(c17KnownStaleTracker) {
+				h.rec.Excluded(c17KnownStaleTracker)
+				h.extDirty = true
+				h.resyncRequested = false
+			} else {
+				h.suspectStaleTracker = true
+			}
+		}
+	}
 	for k, r := range h.dp.RouteKeyToRoute {
 		if r.LinkIndex == idx {
 			delete(h.dp.RouteKeyToRoute, k)
@@ -604,7 +665,7 @@ func TestVerifC17RouteSync(t *testing.T) {
 	defer rec.Write()
 	rapid.Check(t, func(t *rapid.T) {
 		c17TakeMockFailures()
-		h := &c17H{t: t, classes: map[string]bool{}, nextIdx: 10}
+		h := &c17H{t: t, classes: map[string]bool{}, nextIdx: 10, rec: rec}
 		h.cfg = c17Cfg{
 			devProto:       rapid.SampledFrom([]netlink.RouteProtocol{unix.RTPROT_BOOT, unix.RTPROT_BOOT, 80}).Draw(t, "deviceRouteProtocol"),
 			removeExternal: rapid.Bool().Draw(t, "removeExternalRoutes"),
@@ -854,6 +915,15 @@ func TestVerifC17RouteSync(t *testing.T) {
 					mocknetlink.FailNextRouteListWrappedEINTR, mocknetlink.FailNextRouteReplace, mocknetlink.FailNextRouteAddOrReplace,
 					mocknetlink.FailNextRouteDel, mocknetlink.FailNextNewNetlink, mocknetlink.FailNextSetSocketTimeout, mocknetlink.FailNextSetStrict,
 				}).Draw(t, "fault")
+				// Connection faults are not combined with other faults: a failed reconnect in the
+				// middle of a rescan loop makes the code under test touch its stale handle, which
+				// the mock answers with (nil, nil) instead of an error.
+				connect := mocknetlink.FailNextNewNetlink | mocknetlink.FailNextSetSocketTimeout | mocknetlink.FailNextSetStrict
+				if f&connect != 0 {
+					h.dp.FailuresToSimulate &= connect
+				} else {
+					h.dp.FailuresToSimulate &^= connect
+				}
 				h.dp.FailuresToSimulate |= f
 				h.classes["fault-"+f.String()] = true
 				h.faultsSinceGood++
@@ -968,5 +1038,48 @@ func TestVerifC17RegressionRescanDropped(t *testing.T) {
 	}
 	if _, ok := dp.RouteKeyToRoute[key]; err != nil || !ok {
 		t.Fatalf("route 10.0.0.1/32 not restored after retries: err=%v present=%v", err, ok)
+	}
+}
+
+
+// TestVerifC17KnownStaleTracker is the deterministic confirmation of finding
+// c17KnownStaleTracker (it FAILS while the finding reproduces).  Not in the unit's run regex.
+func TestVerifC17KnownStaleTracker(t *testing.T) {
+	ev.Quiet()
+	c17HookGomega()
+	dp := mocknetlink.New()
+	tm := mocktime.New()
+	pol := ownershippol.NewMainTable(c17VXLANIface, unix.RTPROT_BOOT, []string{"cali"}, false, false)
+	rt := routetable.New(pol, 4, 10*time.Second, nil, unix.RTPROT_BOOT, false, unix.RT_TABLE_MAIN, c17NoopRecorder{}, dp,
+		routetable.WithRouteCleanupGracePeriod(10*time.Second),
+		routetable.WithConntrackCleanup(false), routetable.WithTimeShim(tm), routetable.WithNetlinkHandleShim(dp.NewMockNetlink))
+	dp.AddIface(11, "cali1", true, true)
+	// The CNI plugin (or a previous Felix) already programmed the workload's route.
+	r := netlink.Route{Family: unix.AF_INET, Table: unix.RT_TABLE_MAIN, LinkIndex: 11, Dst: c17MustCIDR("10.0.0.2/32"),
+		Protocol: unix.RTPROT_BOOT, Scope: netlink.SCOPE_LINK, Type: unix.RTN_UNICAST}
+	dp.AddMockRoute(&r)
+	key := mocknetlink.KeyForRoute(&r)
+	rt.OnIfaceStateChanged("cali1", 11, ifacemonitor.StateUp)
+	if err := rt.Apply(); err != nil { // start-of-day resync; the unknown route is kept (grace period)
+		t.Fatalf("set-up Apply failed: %v", err)
+	}
+	if _, ok := dp.RouteKeyToRoute[key]; !ok {
+		t.Fatalf("set-up: route was removed in spite of the grace period")
+	}
+	// The link bounces: the kernel drops the route; both events reach Felix, which rescans cali1.
+	delete(dp.RouteKeyToRoute, key)
+	rt.OnIfaceStateChanged("cali1", 11, ifacemonitor.StateDown)
+	rt.OnIfaceStateChanged("cali1", 11, ifacemonitor.StateUp)
+	if err := rt.Apply(); err != nil {
+		t.Fatalf("Apply after flap failed: %v", err)
+	}
+	// Now Felix learns about the workload and wants exactly that route.
+	rt.SetRoutes(routetable.RouteClassLocalWorkload, "cali1", []routetable.Target{{RouteKey: routetable.RouteKey{CIDR: ip.MustParseCIDROrIP("10.0.0.2/32")}}})
+	err := rt.Apply()
+	if f := c17TakeMockFailures(); len(f) > 0 {
+		t.Skipf("HARNESS-GAP: mock assertion failed: %v", f)
+	}
+	if _, ok := dp.RouteKeyToRoute[key]; err == nil && !ok {
+		t.Fatalf("%s: Apply returned nil but desired route 10.0.0.2/32 via cali1 is not in the kernel (no failure was injected)", c17KnownStaleTracker)
 	}
 }
